@@ -239,7 +239,13 @@ func init() {
 		p.assume(True(), p.typeInv(st, types.Typ[types.String], Scalar{r}))
 		return Scalar{r}
 	})
-	for _, k := range []string{"path/filepath.ToSlash", "path/filepath.FromSlash", "path/filepath.Clean", "path/filepath.Base", "path/filepath.Dir", "path.Base"} {
+	for _, k := range []string{"path/filepath.ToSlash", "path/filepath.FromSlash"} {
+		reg(k, "the identity (the packages are loaded for GOOS=linux, where filepath.Separator is '/')", func(fr *Frame, in ssa.Instruction, st *State, args []Value, rt types.Type) Value {
+			return args[0]
+		})
+		libEffTable[k] = noEffect
+	}
+	for _, k := range []string{"path/filepath.Clean", "path/filepath.Base", "path/filepath.Dir", "path.Base"} {
 		fname := "fp." + strings.Replace(k[strings.Index(k, "/")+1:], "filepath.", "", 1)
 		reg(k, "a function of its argument (content uninterpreted)", func(fr *Frame, in ssa.Instruction, st *State, args []Value, rt types.Type) Value {
 			B.DeclareFun(fname, []string{SStr}, SStr)
